@@ -122,7 +122,7 @@ func init() {
 
 func init() {
 	prop(&PropInfo{ID: "C08", Level: "other",
-		Explanation: "Decides one structural clause outside the generated code that the Raft safety invariants need: in raftkvs/bootstrap each of the 12 per-server state variables (state, currentTerm, log, commitIndex, nextIndex, matchIndex, votedFor, votesResponded, votesGranted, leader, sm, smDomain) is bound in all five archetype contexts of a server to MakeLocalShared() of one LocalSharedManager created once per server (RAFT-WIRING), and that shared cell is accessed under strict two-phase locking with a capacity-1 lock (LS-2PL, LS-CAP1). If e.g. votedFor were per-archetype, a server could vote for two candidates in one term. Fidelity of raftkvs.go to raftkvs.tla is reported under C02.",
+		Explanation: "(RAFT-FIDELITY) the server archetypes of the generated raftkvs.go, their table entries and the operator definitions are section by section the image of raftkvs.tla, so the implementation takes exactly the steps of the specification the invariants are model-checked for (client sections are ignored; this is the basis of the safety argument, not a logical necessary condition). Also decides one structural clause outside the generated code that the Raft safety invariants need: in raftkvs/bootstrap each of the 12 per-server state variables (state, currentTerm, log, commitIndex, nextIndex, matchIndex, votedFor, votesResponded, votesGranted, leader, sm, smDomain) is bound in all five archetype contexts of a server to MakeLocalShared() of one LocalSharedManager created once per server (RAFT-WIRING), and that shared cell is accessed under strict two-phase locking with a capacity-1 lock (LS-2PL, LS-CAP1). If e.g. votedFor were per-archetype, a server could vote for two candidates in one term. Fidelity of raftkvs.go to raftkvs.tla is reported under C02.",
 		NotDecided:  "the invariants themselves (ElectionSafety, LogMatching, LeaderCompleteness, StateMachineSafety, LeaderAppendOnly) over all schedules: they need the spec-level argument (model checking) plus C02 fidelity; nothing here decides them.",
 		Assumptions: commonAssumptions})
 }
